@@ -212,6 +212,18 @@ func (m *TransferShare) handlerTransferShares(
 		return nil, nil, fmt.Errorf("insufficient shares(%s < %s)", fromDel.GetShares().TruncateInt().String(), shares.TruncateInt().String())
 	}
 
+	// a transfer to oneself changes nothing: the delegation, the starting info and the reference counts are left
+	// untouched (rewriting them below from two stale copies of the same delegation would inflate it)
+	if from == to {
+		token := validator.TokensFromShares(shares).TruncateInt()
+		data, topic, err := m.NewTransferShareEvent(from, to, valAddr.String(), shares.TruncateInt().BigInt(), token.BigInt())
+		if err != nil {
+			return nil, nil, err
+		}
+		EmitEvent(evm, data, topic)
+		return token.BigInt(), big.NewInt(0), nil
+	}
+
 	// withdraw reward
 	withdrawAddr, err := m.distrKeeper.GetDelegatorWithdrawAddr(ctx, to.Bytes())
 	if err != nil {
